@@ -152,6 +152,12 @@ fn forger(ctx: &Ctx) {
                 variants.push((format!("low-order ephemeral {} and low-order static with es = ss = {}: all from public data", &hex(lo)[..8], what), base(*lo, Dh::Bytes(sub.clone()), Dh::Bytes(sub), *lo), false));
             }
         }
+        // ... or might simply SKIP the MixKey step when the Diffie-Hellman is refused
+        for lo in &low {
+            variants.push((format!("claim low-order static {} with the ss step omitted", &hex(lo)[..8]), base(*lo, honest_es.clone(), Dh::Omit, e.pk), false));
+            variants.push((format!("low-order ephemeral {} with the es step omitted, attacker static", &hex(lo)[..8]), base(attacker.pk, Dh::Omit, Dh::Compute(attacker.sk, rcpt.pk), *lo), false));
+            variants.push((format!("low-order ephemeral {} and low-order static with both steps omitted: all from public data", &hex(lo)[..8]), base(*lo, Dh::Omit, Dh::Omit, *lo), false));
+        }
         // low-order ephemeral: es = zeros from public data alone, combined with honest and low-order statics
         for lo in &low {
             variants.push((format!("low-order ephemeral {} (es = zeros), attacker static", &hex(lo)[..8]), base(attacker.pk, Dh::Value([0; 32]), Dh::Compute(attacker.sk, rcpt.pk), *lo), false));
